@@ -118,10 +118,28 @@ where
 {
     if matches!(op, "batch_multiply" | "par_batch_multiply") {
         let fs: Vec<Vec<F>> = a.first()?.list()?.iter().map(F::plist).collect::<Option<_>>()?;
-        st.hit(&format!("batch:len={}", fs.len()));
-        return Some(with_variants(&fs, st, &|ps| {
+        st.hit(&format!("batch:len={}", if fs.len() > 9 { ">9".to_string() } else { fs.len().to_string() }));
+        if fs.len() >= 2 && fs.iter().all(|p| p.len() == 2) {
+            st.hit("batch:every-factor-has-two-stored-coefficients");
+        }
+        if fs.iter().any(|p| p.len() >= 2 && Polynomial::new(p.clone()).degree() <= 0) {
+            st.hit("batch:padded-constant-element");
+        }
+        let o = with_variants(&fs, st, &|ps| {
             okp(&if op == "batch_multiply" { Polynomial::batch_multiply(ps) } else { Polynomial::par_batch_multiply(ps) })
-        }));
+        });
+        // on the implementation: the sequential and the parallel batch product agree with the left-to-right product
+        // by the operator `*`, and the degree is the sum of the degrees (no factor dropped, none added)
+        let ps: Vec<Pl<F>> = fs.iter().map(|p| build(p, 0, false)).collect();
+        let mut acc: Pl<F> = Polynomial::one();
+        for p in &ps {
+            acc = acc * p.clone();
+        }
+        let agree = std::panic::catch_unwind(AssertUnwindSafe(|| {
+            Polynomial::batch_multiply(&ps) == acc && Polynomial::par_batch_multiply(&ps) == acc
+        }))
+        .unwrap_or(true);
+        return Some(o.with_oracle(agree, "batch_multiply / par_batch_multiply != the left-to-right product of the factors"));
     }
     let p0 = F::plist(a.first()?)?;
     let stored = p0.len() as i64 - (Polynomial::new(p0.clone()).degree() as i64 + 1);
@@ -510,6 +528,7 @@ pub fn gen(rng: &mut Rng, thorough: bool, out: &mut Vec<String>) {
         }
     }
     gen_ext(rng, thorough, out);
+    gen_batch_elements(rng, thorough, out);
     // clean division (base field only): long-division arm, and the NTT arm (divisor degree >= 512 in production)
     for (dq, dd) in [(3i64, 5i64), (0, 7), (-1, 4), (10, 0)] {
         let q = pstr(rng, false, dq, 0);
@@ -823,5 +842,58 @@ fn gen_ext(rng: &mut Rng, thorough: bool, out: &mut Vec<String>) {
         let op = *rng.pick(&["mul_scalar", "scalar_times"]);
         out.push(format!("polyv {op} bx {pb} {sx}"));
         out.push(format!("polyv {op} xb {px} {sb}"));
+    }
+}
+
+/// G07 (coordinator request): batch products whose list ELEMENTS carry stored zeros -- padded constants `[1,0]`,
+/// `[0,0]`, `[c,0,0]`, padded linears `[a,1,0]` -- in particular lists in which every factor has exactly two stored
+/// coefficients and leading coefficient 1 although some are the constant 1; and lists of many (>= 128) small
+/// factors whose length is not a multiple of `max(2, len / threads)`.
+fn gen_batch_elements(rng: &mut Rng, thorough: bool, out: &mut Vec<String>) {
+    for f in ["b", "x"] {
+        let x = f == "x";
+        let z = if x { "(0;0;0)" } else { "0" };
+        let e1 = if x { "(1;0;0)" } else { "1" };
+        let lin = |rng: &mut Rng| -> String { if x { format!("({};{};0),{e1}", rng.fval(), rng.below(2)) } else { format!("{},1", rng.fval()) } };
+        let cst = |rng: &mut Rng| -> String { if x { format!("({};0;0)", 2 + rng.below(P - 2)) } else { (2 + rng.below(P - 2)).to_string() } };
+        for &l in &[1usize, 2, 3, 4, 5, 8, 9, 17] {
+            for variant in 0..(if thorough { 10 } else { 5 }) {
+                let mut fs: Vec<String> = (0..l).map(|_| format!("[{}]", lin(rng))).collect();
+                let pos = rng.below(l as u64) as usize;
+                match variant % 5 {
+                    0 => fs[pos] = format!("[{e1},{z}]"),
+                    1 => {
+                        fs[0] = format!("[{e1},{z}]");
+                        fs[l - 1] = format!("[{e1},{z}]");
+                    }
+                    2 => fs[pos] = format!("[{},{z}]", cst(rng)),
+                    3 => fs[pos] = format!("[{z},{z}]"),
+                    _ => {
+                        fs[pos] = format!("[{},{z},{z}]", cst(rng));
+                        fs[(pos + 1) % l] = format!("[{},{z}]", lin(rng));
+                    }
+                }
+                for op in ["batch_multiply", "par_batch_multiply"] {
+                    out.push(format!("polyv {op} {f} [{}]", fs.join(",")));
+                }
+            }
+        }
+        // many small factors
+        for &l in &[127usize, 128, 129, 130, 131, 200, 257, 500] {
+            if x && !thorough && !(l == 129 || l == 257) {
+                continue;
+            }
+            let fs: Vec<String> = (0..l)
+                .map(|i| match (i + l) % 7 {
+                    0 => format!("[{}]", cst(rng)),
+                    1 => format!("[{e1},{z}]"),
+                    2 => format!("[{},{z}]", lin(rng)),
+                    _ => format!("[{}]", lin(rng)),
+                })
+                .collect();
+            for op in ["batch_multiply", "par_batch_multiply"] {
+                out.push(format!("polyv {op} {f} [{}]", fs.join(",")));
+            }
+        }
     }
 }
